@@ -8,6 +8,7 @@
 //!   nreal sort   <len> <threads>
 //!   nreal eventloop <items per round> <rounds>
 //!   nreal kinds <variant>
+//!   nreal boxcar-faults <capacity>   (Miri with its leak check on)
 mod seq;
 use std::sync::atomic::Ordering as O;
 use std::sync::Arc;
@@ -90,6 +91,72 @@ fn boxcar(capacity: u32, items: u32) {
 
 /// Script-driven variant: the operation mix of every thread is drawn from `seed`, so different
 /// argv values explore different small programs under Miri (each again under many Miri seeds).
+/// Panicking fill callbacks and lying iterators on the bare vector, no threads: run under Miri *with*
+/// its leak check (C11: nothing owned by an item is leaked, also not what a fill callback had stored
+/// before it panicked), and with a boxed value so that a double drop would be a use after free.
+fn boxcar_faults(capacity: u32) {
+    use std::panic::{catch_unwind, AssertUnwindSafe};
+    std::panic::set_hook(Box::new(|_| {}));
+    let vec = RawVec::<(u32, Box<u32>)>::with_capacity(capacity, 2);
+    let text = |x: u32| format!("column text {x} long enough to live on the heap");
+    for i in 0..40u32 {
+        match i % 8 {
+            3 => {
+                let r = catch_unwind(AssertUnwindSafe(|| {
+                    vec.push((i, Box::new(i)), |x, cols| {
+                        cols[0] = text(x.0).as_str().into();
+                        panic!("fill {i}");
+                    })
+                }));
+                assert!(r.is_err());
+            }
+            5 => {
+                let batch: Vec<(u32, Box<u32>)> = (0..4).map(|k| (i * 10 + k, Box::new(k))).collect();
+                let r = catch_unwind(AssertUnwindSafe(|| {
+                    vec.extend(batch.into_iter(), |x, cols| {
+                        cols[1] = text(x.0).as_str().into();
+                        if x.0 % 10 == 2 {
+                            panic!("fill in batch {i}");
+                        }
+                        cols[0] = text(x.0 + 1).as_str().into();
+                    })
+                }));
+                assert!(r.is_err());
+            }
+            6 => {
+                // reports 3, yields 5: the surplus is rejected by a panic, the first three are stored
+                struct Lying(std::vec::IntoIter<(u32, Box<u32>)>);
+                impl Iterator for Lying {
+                    type Item = (u32, Box<u32>);
+                    fn next(&mut self) -> Option<Self::Item> {
+                        self.0.next()
+                    }
+                }
+                impl ExactSizeIterator for Lying {
+                    fn len(&self) -> usize {
+                        3
+                    }
+                }
+                let batch: Vec<(u32, Box<u32>)> = (0..5).map(|k| (i * 10 + k, Box::new(k))).collect();
+                let r = catch_unwind(AssertUnwindSafe(|| vec.extend(Lying(batch.into_iter()), |x, cols| cols[0] = text(x.0).as_str().into())));
+                assert!(r.is_err());
+            }
+            _ => {
+                vec.push((i, Box::new(i)), |x, cols| cols[0] = text(x.0).as_str().into());
+            }
+        }
+    }
+    let mut seen = 0;
+    for k in 0..vec.count() {
+        if let Some(it) = vec.get(k) {
+            assert_eq!(it.matcher_columns.len(), 2);
+            seen += 1;
+        }
+    }
+    drop(vec);
+    println!("boxcar-faults ok: capacity {capacity}, {seen} items stored");
+}
+
 fn boxcar_script(seed: u64) {
     struct Rng(u64);
     impl Rng {
@@ -438,6 +505,7 @@ fn main() {
         Some("seqdiff") => std::process::exit(seq::main(a.get(2).expect("seqdiff FILE"))),
         Some("eventloop") => eventloop(num(2, 1), num(3, 40)),
         Some("kinds") => kinds(num(2, 0)),
+        Some("boxcar-faults") => boxcar_faults(num(2, 1)),
         _ => {
             eprintln!("usage: nreal boxcar|nucleo|sort ...");
             std::process::exit(2)
